@@ -262,7 +262,7 @@ twin!(#[fastrace::trace()] async fn adrops_p / adrops_t (a: u32, y: u32) -> u32 
 twin!(#[fastrace::trace()] async fn ainner_p / ainner_t (a: u32, y: u32) -> u32 { here!(); let blk = async { YieldN(y).await; a * 2 }; let f = |x: u32| async move { YieldN(1).await; x + 1 }; let v = blk.await; f(v).await });
 twin!(#[fastrace::trace()] async fn aimpl_p / aimpl_t (a: u32, y: u32, it: impl Iterator<Item = u32>) -> Vec<u32> { here!(); let mut v = Vec::new(); for x in it { YieldN(y.min(1)).await; v.push(x + a); } v });
 twin!(#[fastrace::trace(enter_on_poll = true)] async fn aeop_q_p / aeop_q_t (a: u32, y: u32) -> Result<u32, String> { here!(); YieldN(y).await; if a == 2 { return Err("eop-err".into()); } let r: Result<u32, String> = Ok(a); Ok(r? + 1) });
-// larger shapes: eight arguments and a dozen properties, a long
+// larger shapes: eight arguments and a dozen properties, 34 and 20 properties on a sync and an async function, a long
 // format string, annotated calls nested four deep, a dozen pending polls
 #[allow(clippy::too_many_arguments)]
 fn many_p(a: u32, b: &str, c: u64, d: i8, e: bool, f: char, g: (u8, u8), h: Option<u32>) -> String {
@@ -276,6 +276,26 @@ fn many_t(a: u32, b: &str, c: u64, d: i8, e: bool, f: char, g: (u8, u8), h: Opti
     here!();
     log("many");
     format!("{a}{b}{c}{d}{e}{f}{g:?}{h:?}")
+}
+fn props20_p(a: u32, b: u32) -> u32 {
+    here!();
+    a * 100 + b
+}
+#[fastrace::trace(properties = { "k0": "{a}-0", "k1": "{b}-1", "k2": "{a}-2", "k3": "{b}-3", "k4": "{a}-4", "k5": "{b}-5", "k6": "{a}-6", "k7": "{b}-7", "k8": "{a}-8", "k9": "{b}-9", "k10": "{a}-10", "k11": "{b}-11", "k12": "{a}-12", "k13": "{b}-13", "k14": "{a}-14", "k15": "{b}-15", "k16": "{a}-16", "k17": "{b}-17", "k18": "{a}-18", "k19": "{b}-19", "k20": "{a}{b}", "k21": "lit", "k22": "{a:04}", "k23": "{b:?}", "k24": "{{}}", "k25": "{a}", "k26": "{b}", "k27": "x", "k28": "y", "k29": "z", "k30": "{a}", "k31": "{b}", "k32": "last-{a}", "k33": "really-last" })]
+fn props20_t(a: u32, b: u32) -> u32 {
+    here!();
+    a * 100 + b
+}
+async fn aprops20_p(a: u32, y: u32) -> u32 {
+    here!();
+    YieldN(y).await;
+    a + 1
+}
+#[fastrace::trace(properties = { "k0": "{a}-0", "k1": "1", "k2": "{a}-2", "k3": "3", "k4": "{a}-4", "k5": "5", "k6": "{a}-6", "k7": "7", "k8": "{a}-8", "k9": "9", "k10": "{a}-10", "k11": "11", "k12": "{a}-12", "k13": "13", "k14": "{a}-14", "k15": "15", "k16": "{a}-16", "k17": "17", "k18": "{a}-18", "k19": "19" })]
+async fn aprops20_t(a: u32, y: u32) -> u32 {
+    here!();
+    YieldN(y).await;
+    a + 1
 }
 twin!(#[fastrace::trace()] fn deep4_nested_p / deep4_nested_t (a: u32) -> u32 { here!(); log("d4"); a + 1 });
 twin!(#[fastrace::trace()] fn deep3_nested_p / deep3_nested_t (a: u32) -> u32 { here!(); log("d3"); deep4_nested_t(a) * 2 });
@@ -655,6 +675,35 @@ fn cases() -> Vec<Case> {
         |a| many_p(a, &format!("s{a}"), a as u64 + 7, -3, a == 1, 'é', (a as u8, 2), Some(a)),
         many_t(a, &format!("s{a}"), a as u64 + 7, -3, a == 1, 'é', (a as u8, 2), Some(a))
     );
+    sync_case!(
+        c,
+        "props20",
+        None,
+        |a: u32| {
+            let b = a + 5;
+            let mut v: Vec<(String, String)> = (0..20).map(|i| (format!("k{i}"), format!("{}-{i}", if i % 2 == 0 { a } else { b }))).collect();
+            v.extend([
+                ("k20".to_string(), format!("{a}{b}")),
+                ("k21".to_string(), "lit".to_string()),
+                ("k22".to_string(), format!("{a:04}")),
+                ("k23".to_string(), format!("{b:?}")),
+                ("k24".to_string(), "{}".to_string()),
+                ("k25".to_string(), format!("{a}")),
+                ("k26".to_string(), format!("{b}")),
+                ("k27".to_string(), "x".to_string()),
+                ("k28".to_string(), "y".to_string()),
+                ("k29".to_string(), "z".to_string()),
+                ("k30".to_string(), format!("{a}")),
+                ("k31".to_string(), format!("{b}")),
+                ("k32".to_string(), format!("last-{a}")),
+                ("k33".to_string(), "really-last".to_string()),
+            ]);
+            v
+        },
+        |a| props20_p(a, a + 5),
+        props20_t(a, a + 5)
+    );
+    async_case!(c, "aprops20", None, |a: u32| (0..20).map(|i| (format!("k{i}"), if i % 2 == 0 { format!("{a}-{i}") } else { format!("{i}") })).collect(), false, |a, y| aprops20_p(a, y), aprops20_t(a, y));
     sync_case!(c, "deep1_nested", None, no_props, |a| deep1_nested_p(a), deep1_nested_t(a));
     sync_case!(c, "S::ref", None, no_props, |a| S { v: 10 }.ref_p(a), S { v: 10 }.ref_t(a));
     sync_case!(c, "S::mut", Some("mut_t"), no_props, |a| { let mut s = S { v: 10 }; (s.mut_p(a), s.v) }, { let mut s = S { v: 10 }; (s.mut_t(a), s.v) });
